@@ -99,6 +99,12 @@ func (r *run) capture(c fiber.Ctx, cs Case, probe bool) {
 	add("Cookies", c.Cookies("ck"), cs.Ck)
 	add("Host", c.Host(), cs.H1+"."+cs.H2+".example.com")
 	add("Hostname", c.Hostname(), cs.H1+"."+cs.H2+".example.com")
+	// the generic accessors, instantiated for every kind of result that can alias a buffer
+	addB("Query[[]byte]", fiber.Query[[]byte](c, "name"), cs.QName)
+	add("Query[string]", fiber.Query[string](c, "name"), cs.QName)
+	addB("GetReqHeader[[]byte]", fiber.GetReqHeader[[]byte](c, "X-Name"), cs.XName)
+	add("GetReqHeader[string]", fiber.GetReqHeader[string](c, "X-Name"), cs.XName)
+	add("Params[string]", fiber.Params[string](c, "id"), cs.ID)
 	addB("Body", c.Body(), "")
 	addB("BodyRaw", c.BodyRaw(), "")
 	if !cs.JSONBody {
